@@ -532,6 +532,8 @@ impl<'a, R: AsyncRead + Unpin, W: AsyncWrite + Unpin> Request<'a, R, W> {
 
             // Both stream and protocol data buffers are empty here
             this.parser.compress();
+            // Don't wait for more input while the records parsed above are owed a reply
+            ready!(Pin::new(&mut *this).poll_output(cx))?;
             let buf = this.parser.input_buffer();
             read = ready!(Pin::new(&mut this.input).poll_read(cx, buf))?;
             if read == 0 {
